@@ -95,7 +95,7 @@ def run_mc(prop, tier, mc):
     """exhaustive TLC run of a bounded model; returns stats; any error is a tool error
     (the models do not depend on the code: a failure means the specification itself is broken)"""
     name = mc["name"]
-    cfg = mc.get("cfg_" + tier, mc.get("cfg"))
+    cfg = mc.get("cfg_thorough") if tier == "thorough" and mc.get("cfg_thorough") else mc["cfg"]
     module = mc["module"]
     workers = mc.get("workers", 8)
     rc, out, dt = run_tlc(f"{prop}-{name}", module, cfg, workers, timeout=mc.get("timeout", 3600),
@@ -116,7 +116,7 @@ def run_mc(prop, tier, mc):
 
 def run_gen(prop, tier, gen, workdir):
     """let TLC print generated cases (lines 'CASE {json}'); returns path of the case file"""
-    cfg = gen.get("cfg_" + tier, gen.get("cfg"))
+    cfg = gen.get("cfg_thorough") if tier == "thorough" and gen.get("cfg_thorough") else gen["cfg"]
     rc, out, dt = run_tlc(f"{prop}-{gen['name']}", gen["module"], cfg, gen.get("workers", 1), timeout=gen.get("timeout", 1800))
     if rc != 0 or "No error has been found" not in out:
         tool_error(f"generator {gen['module']}/{cfg} failed (rc={rc}): {out[-3000:]}")
